@@ -4,8 +4,11 @@ package main
 
 import (
 	"fmt"
+	"go/constant"
+	"go/token"
 	"go/types"
 	"sort"
+	"strconv"
 	"strings"
 
 	"golang.org/x/tools/go/ssa"
@@ -147,7 +150,10 @@ func runC06(c *Ctx) {
 		body := onceBodyOf(owner, "s.closeOnce")
 		if body != nil {
 			as := []Assume{{`s\.Connected\(\)`, true}}
-			for _, a := range []struct{ name string; pred instrPred }{
+			for _, a := range []struct {
+				name string
+				pred instrPred
+			}{
 				{"leaveAll", callPred(`\(\*sio\.serverSocket\)\.leaveAll`)},
 				{"nsp.remove", callPred(`\(\*sio\.Namespace\)\.remove`)},
 				{"conn.remove", callPred(`\(\*sio\.serverConn\)\.remove`)},
@@ -261,6 +267,78 @@ func runC06(c *Ctx) {
 
 	c.Rule("C06-D5", "reason constants: each close site passes the constant naming its cause", 9)
 	reasonConstants(c, "C06-D5")
+
+	c.Rule("C06-D6", "nothing left behind in the adapter: the close path of a server socket replaces join by a no-op (under joinMu) before leaveAll on every path — whatever the close reason and whether or not "+
+		"connection state recovery is on —, always runs leaveAll for a connected socket, and Join/Leave address the adapter under the socket's own id (shared with C04-D5)", 5)
+	closedSocketInNoRoom(c, "C06-D6")
+
+	c.Rule("C06-D7", "the Engine.IO close closes the transport for every reason except exactly those that say the transport has already closed (transport close / transport error): "+
+		"for each Reason constant of the package the reason test of serverSocket.close / clientSocket.close is folded and transport.Close() must be reachable iff the reason is not one of the two; "+
+		"a ping timeout or a forced close that leaves the transport open lets the half-dead peer keep using the closed session", 10)
+	{
+		// Reason constants of package eio
+		type rc struct{ name, val string }
+		var reasons []rc
+		sc := p.Pkg("eio").Types.Scope()
+		for _, n := range sc.Names() {
+			if k, ok := sc.Lookup(n).(*types.Const); ok {
+				if nt, ok := k.Type().(*types.Named); ok && nt.Obj().Name() == "Reason" && k.Val().Kind() == constant.String {
+					reasons = append(reasons, rc{n, constant.StringVal(k.Val())})
+				}
+			}
+		}
+		if len(reasons) < 5 {
+			anchorFail("C06-D7: found %d Reason constants in package eio, expected at least 5", len(reasons))
+		}
+		already := map[string]bool{unq(p.ConstVal("eio", "ReasonTransportClose")): true, unq(p.ConstVal("eio", "ReasonTransportError")): true}
+		for _, tn := range []string{"serverSocket", "clientSocket"} {
+			owner := p.Fn("eio", tn+".close")
+			body := onceBodyOf(owner, "s.closeOnce")
+			if body == nil {
+				anchorFail("C06-D7: once body of eio.%s.close not found", tn)
+			}
+			isTClose := anyCallPred(`\((eio\.)?(Server|Client)Transport\)\.Close`)
+			if len(findInstrs(body, isTClose)) == 0 {
+				c.Ob("C06-D7", "eio."+tn+".close/closes-transport", body.Pos(), false, "the close body never closes the transport")
+				continue
+			}
+			for _, r := range reasons {
+				var as []Assume
+				for _, b := range body.Blocks {
+					for _, in := range b.Instrs {
+						bo, ok := in.(*ssa.BinOp)
+						if !ok || (bo.Op != token.EQL && bo.Op != token.NEQ) {
+							continue
+						}
+						var other ssa.Value
+						isReason := func(v ssa.Value) bool {
+							nt, ok := v.Type().(*types.Named)
+							return ok && nt.Obj().Name() == "Reason"
+						}
+						if k, isK := bo.Y.(*ssa.Const); isK && isReason(bo.X) && k.Value != nil && k.Value.Kind() == constant.String {
+							other = bo.X
+							eq := constant.StringVal(k.Value) == r.val
+							as = append(as, assumeCond(bo, eq == (bo.Op == token.EQL)))
+						} else if k, isK := bo.X.(*ssa.Const); isK && isReason(bo.Y) && k.Value != nil && k.Value.Kind() == constant.String {
+							other = bo.Y
+							eq := constant.StringVal(k.Value) == r.val
+							as = append(as, assumeCond(bo, eq == (bo.Op == token.EQL)))
+						}
+						_ = other
+					}
+				}
+				// the transport is set on a live socket
+				as = append(as, Assume{`\(s\.transport != nil.*\)`, true}, Assume{`\(s\.transport == nil.*\)`, false})
+				reach, _ := PrunedCanReach(body, nil, as, isTClose, nil)
+				skip, trail := PrunedCanReach(body, nil, as, nil, isTClose)
+				if already[r.val] {
+					c.Ob("C06-D7", "eio."+tn+".close/"+r.name, body.Pos(), true, "transport already closed for this reason; Close reachable="+fmt.Sprint(reach))
+				} else {
+					c.Ob("C06-D7", "eio."+tn+".close/"+r.name, body.Pos(), reach && !skip, fmt.Sprintf("closing with %s (%q) can finish without closing the transport: the peer keeps a working connection to a session that was reported closed: %s", r.name, r.val, trailString(p, trail)))
+				}
+			}
+		}
+	}
 }
 
 func methodNames(p *Program, short, typ string) []string {
@@ -463,4 +541,11 @@ func reasonConstants(c *Ctx, rule string) {
 			}
 		}
 	}
+}
+
+func unq(s string) string {
+	if u, err := strconv.Unquote(s); err == nil {
+		return u
+	}
+	return s
 }
